@@ -681,9 +681,10 @@ def _bind_args(call, callee):
     return m
 
 
-def inline_value(callee, depth=3):
-    """Fully expanded return expression of a straight-line function in terms of its parameters (and free names), or None."""
-    key = "_inline_value"
+def inline_value(callee, depth=3, stop=()):
+    """Fully expanded return expression of a straight-line function in terms of its parameters (and free names), or None.
+    Calls of functions whose name is in `stop` are kept as calls."""
+    key = "_inline_value" + ("|" + ",".join(sorted(stop)) if stop else "")
     if hasattr(callee, key):
         return getattr(callee, key)
     setattr(callee, key, None)       # recursion guard
@@ -704,7 +705,7 @@ def inline_value(callee, depth=3):
         except Exception:
             out = None
     if out is not None and depth > 0:
-        out = normalize(out, callee, depth - 1)
+        out = normalize(out, callee, depth - 1, stop=stop)
     if out is not None and sum(1 for _ in ast.walk(out)) > 400:
         out = None
     setattr(callee, key, out)
@@ -712,16 +713,18 @@ def inline_value(callee, depth=3):
 
 
 class _Inliner(ast.NodeTransformer):
-    def __init__(self, scope, depth):
-        self.scope, self.depth = scope, depth
+    def __init__(self, scope, depth, stop=()):
+        self.scope, self.depth, self.stop = scope, depth, tuple(stop)
 
     def visit_Call(self, n):
         n = self.generic_visit(n)
+        if self.stop and (dotted(n.func) or "").split(".")[-1] in self.stop:
+            return n
         callee = _callee_scope(n.func, self.scope)
         if callee is None or callee.kind not in ("function", "lambda") or callee.cls is not None:
             return self._kw_to_pos(n, None)
         m = _bind_args(n, callee)
-        val = inline_value(callee, self.depth) if m is not None else None
+        val = inline_value(callee, self.depth, self.stop) if m is not None else None
         if val is None:
             return self._kw_to_pos(n, callee if m is not None else None, m)
         import copy
@@ -758,7 +761,7 @@ class _Inliner(ast.NodeTransformer):
         return n
 
 
-def normalize(expr, scope, depth=3):
+def normalize(expr, scope, depth=3, stop=()):
     """Inline calls of straight-line repository functions (recursively), put keyword arguments of resolved callees in positional
     form, replace nested straight-line defs used as values by lambdas.  Comparing normal forms makes a rule insensitive to
     extracting / inlining small helpers, keyword-vs-positional call style and def-vs-lambda."""
@@ -767,7 +770,7 @@ def normalize(expr, scope, depth=3):
         expr = ast.parse(expr, mode="eval").body
     if REPO is None or scope is None:
         return expr
-    out = _Inliner(scope, depth).visit(copy.deepcopy(expr))
+    out = _Inliner(scope, depth, stop).visit(copy.deepcopy(expr))
 
     class _TupleIndex(ast.NodeTransformer):
         def visit_Subscript(self, n):
